@@ -21,6 +21,7 @@ Python never judges a result; it only maps abstract <-> concrete and records.
 """
 import os
 import random
+import threading
 from concurrent.futures import ThreadPoolExecutor
 
 import numpy as np
@@ -414,7 +415,7 @@ BOUNDS = {
                     MaxLenD=5, DVals=set(range(1, 5)), FVals={1, 2, 3}, NReps=6),
         mech=dict(MaxLen1=3, MaxLen2=3, RepLen2=2, A1Vals=set(range(2, 7)), A2Vals=set(range(1, 8)),
                   MaxLenD=4, DVals=set(range(1, 5)), FVals={1, 2, 3}, NReps=0),
-        shards=dict(match=8, dedup=4), seeded=(4000, 150, 250),
+        shards=dict(match=16, dedup=8), seeded=(4000, 150, 250),
         scale=dict(ScaleN2={1023, 1024, 1025, 65535, 65536, 65537, 999999, 1000000, 1048575, 1048576, 1048577, 2097153, 3145728},
                    ScaleND={65535, 65536, 65537, 100003, 1048577}, ScaleReps=3, ScaleBigStride=1), laws=dict(LawLen=3, GenN=7)),
 }
@@ -490,12 +491,16 @@ def run(ctx):
     K = {"match": max(B["export"]["A2Vals"]), "dedup": {"a": max(B["export"]["DVals"]), "f": max(B["export"]["FVals"])}}
     state = dict(nid=0, ncalls=0, frame_bad=0, probe=None, dprobe=None, exported=0)
     cover = Coverage()
-    pending = []
+    pending, intern, reptable, used, lock = [], {}, [], {"match": set(), "dedup": set()}, threading.Lock()
     pools = {"match": {}, "dedup": {}}
 
-    def process(jobs, what):
-        for b0 in range(0, len(jobs), 200000):
-            recs = pmap(run_case, jobs[b0:b0 + 200000])
+    def process(jobs, what, chunk=100000):
+        """jobs: run_case argument tuples, or compact (id, kind, a1, a2, f, rep numbers) tuples expanded chunk by chunk"""
+        for b0 in range(0, len(jobs), chunk):
+            part = [j if len(j) == 4 else (j[0], {"kind": j[1], "a1": list(j[2]), "a2": list(j[3]), "f": list(j[4])}, K[j[1]],
+                                           [reptable[x] for x in j[5]]) for j in jobs[b0:b0 + chunk]]
+            recs = pmap(run_case, part)
+            del part
             for r in recs:
                 ctx.count(r["c"])
                 state["ncalls"] += r["ncalls"]
@@ -531,11 +536,23 @@ def run(ctx):
         design = (r2.records.get("DESIGN") or [None])[0]
         if not cases or r2.garbled or design is None or any(c["kind"] != kind or len(c["reps"]) < B["export"]["NReps"] for c in cases):
             raise MachineryError("export of %s cases failed (%d cases, %d garbled)" % (kind, len(cases), r2.garbled))
-        return cases, design
+        # compact form (the parsed records of a large export are several hundred MB): tuples + numbered representations
+        out = []
+        with lock:
+            for c in cases:
+                ids = []
+                for rep in c["reps"]:
+                    key = tuple(rep[f] for f in REP_FIELDS)
+                    if key not in intern:
+                        intern[key] = len(reptable)
+                        reptable.append(rep)
+                    ids.append(intern[key])
+                out.append((kind, tuple(c["a1"]), tuple(c["a2"]), tuple(c["f"]), tuple(ids)))
+        return out, design
 
     nsh = B["shards"]
     tasks = [("scale", 0, 1)] + [(kind, i, nsh[kind]) for kind in ("match", "dedup") for i in range(nsh[kind])]
-    design, intern, scale_cases = None, {}, []
+    design, scale_cases = None, []
     with ThreadPoolExecutor(max(1, min(6, int(os.environ.get("VH_MAX_WORKERS", "16"))))) as ex:
         futs = [ex.submit(export, t) for t in tasks]
         for (kind, shard, _), fut in zip(tasks, futs):
@@ -543,18 +560,21 @@ def run(ctx):
                 scale_cases = fut.result()[0]
                 continue
             cases, design = fut.result()
-            jobs = []
-            for i, c in enumerate(cases, 1):
-                reps = [intern.setdefault(tuple(rep[f] for f in REP_FIELDS), rep) for rep in c.pop("reps")]
-                for rep in reps:
-                    cover.add(kind, rep)
-                    if rep["l1"] not in R.SCALAR_LAYOUTS and rep["l2"] not in R.SCALAR_LAYOUTS and rep["t2"] != "b1":
-                        pools[kind][tuple(rep[f] for f in REP_FIELDS)] = rep
-                jobs.append((state["nid"] + i, c, K[kind], reps))
+            jobs = [(state["nid"] + i,) + c for i, c in enumerate(cases, 1)]
             state["nid"] += len(jobs)
             state["exported"] += len(jobs)
             del cases
             pending.append((kind, shard, jobs))
+    for kind, _, jobs in pending:
+        for j in jobs:
+            for x in set(j[5]):
+                used[kind].add(x)
+    for kind in ("match", "dedup"):
+        for x in sorted(used[kind]):
+            rep = reptable[x]
+            cover.add(kind, rep)
+            if rep["l1"] not in R.SCALAR_LAYOUTS and rep["l2"] not in R.SCALAR_LAYOUTS and rep["t2"] != "b1":
+                pools[kind][tuple(rep[f] for f in REP_FIELDS)] = rep
     for kind in ("match", "dedup"):
         miss = cover.missing(design, [kind])
         if miss:
